@@ -45,13 +45,13 @@ struct Run<'a> {
     tick: u64,
 }
 
-/// The command's field is private: the real verifier hands us one (allowed silence: 1.2 x 10 ms - far below one clock tick).
+/// The command's field is private: the real verifier hands us one (allowed silence: 1.2 x 100 s - far below one clock tick of 1000 s, far above the time between a ping and the verification even on a loaded machine).
 fn obtain_heartbeat_command() -> server::channels::commands::verify_heartbeats::VerifyHeartbeatsCommand {
     use std::str::FromStr;
     let rt = tokio::runtime::Builder::new_current_thread().enable_all().build().unwrap();
     let cmd = rt.block_on(async {
         let (tx, rx) = flume::unbounded();
-        let cfg = server::configs::server::HeartbeatConfig { enabled: true, interval: iggy::utils::duration::IggyDuration::from_str("10ms").unwrap() };
+        let cfg = server::configs::server::HeartbeatConfig { enabled: true, interval: iggy::utils::duration::IggyDuration::from_str("100s").unwrap() };
         server::channels::commands::verify_heartbeats::VerifyHeartbeats::new(&cfg, tx).start();
         rx.recv_async().await.expect("heartbeat command")
     });
